@@ -41,6 +41,14 @@ HAND = [
     "function f(x) { var a[3]; a[0] = x; a[1] = 7; var b = a[1]; return b; }",
     "function f(x) { var p = x; var q = p; var r = q; return 1; }",
     "template T(n) { signal input a; signal output out; var k = n; out <== a; }",
+    # values that only decide a branch whose condition is a known constant
+    "template T() { signal input a; signal input b; signal output out; var mode = 1; if (mode == 1) { out <== a; } else { out <== b; } }",
+    "function f(y, z) { var mode = 1; var r = z; if (mode == 1) { r = y; } return r; }",
+    "function f(y) { var lim = 3; var r = 0; for (var i = 0; i < lim; i++) { r += y; } return r; }",
+    "function f(y) { var t = 2; var u = t + 1; var r = 0; while (r < u) { r++; } return r; }",
+    "template T() { signal input a; signal output out; var k = 0; var sel = 0; out <== (sel == 0) ? a : a * a; }",
+    "function f(y) { var d = 2; var arr[d]; arr[0] = y; return arr[0]; }",
+    "function f(y) { var e = 1; assert(e == 1); return y; }",
 ]
 
 
